@@ -3,7 +3,9 @@
 Addresses: usr0..usr7 -> 0..7, cpool -> 9, contractK -> 10+K (the byte order of these names under
 cw-storage-plus' length-prefixed keys is the numeric order, which the paged queries rely on);
 invalid addresses -> >= 1000.  Denominations: ujunox 0, uusdcx 1, uatom 2, uosmo 3, dNN -> 10+NN.
-NFT token ids are decimal strings."""
+NFT token ids are decimal strings, or one of the ODD_TOKENS below: cw721 token ids are arbitrary
+strings, and ids that differ only in letter case, surrounding blanks or leading zeros are different
+tokens (distinct numbers on the Coq side)."""
 
 USERS = ["usr%d" % i for i in range(8)]
 POOL = "cpool"
@@ -38,8 +40,14 @@ def denom_num(d):
     raise ValueError("denom outside the universe: %r" % (d,))
 
 
+ODD_TOKENS = {"Dragon": 100001, "dragon": 100002, "DRAGON": 100003, " 7": 100004, "7 ": 100005, "07": 100006,
+              "7\t": 100007, "\u00e9": 100008, "e\u0301": 100009, "": 100010}
+
+
 def tok_num(t):
-    assert t.isdigit(), t
+    if t in ODD_TOKENS:
+        return ODD_TOKENS[t]
+    assert t.isdigit() and str(int(t)) == t, t
     return int(t)
 
 
